@@ -432,7 +432,42 @@ BRIDGE = {
                      "nonce_from_rfc_request_sim", "nonce_from_request_sim", "nonce_from_request_no_panic"],
         "props": ["C07", "C08", "C09", "C12"],
     },
+    "Rough.Bridge.Client": {
+        "rs_modules": ["Client", "Message", "Merkle", "LongTerm"],
+        "theorems": ["calc_srv_value_sim", "make_request_sim", "receive_response_sim", "validate_sig_eq", "handle_sim"],
+        "props": ["C01", "C03"],
+    },
+    "Rough.Bridge.Keys": {
+        "rs_modules": ["Online", "LongTerm", "Responder", "Message", "Merkle"],
+        "theorems": ["ltk_calc_srv_value_sim", "ltk_new_sim", "ltk_public_key_eq", "ltk_srv_value_eq", "make_dele_sim", "make_cert_sim",
+                     "classic_midp_sim", "rfc_midp_eq", "make_srep_sim", "make_response_sim", "responder_reset_eq",
+                     "responder_is_empty_eq", "add_classic_request_sim", "add_ietf_request_sim"],
+        "props": ["C02", "C09", "C10", "C11"],
+    },
+    "Rough.Bridge.Merkle": {
+        "rs_modules": ["Merkle"],
+        "theorems": ["new_eq", "node_len_eq", "hash_leaf_eq", "hash_nodes_eq", "finalize_output_sim", "push_leaf_sim", "reset_eq",
+                     "is_empty_sim", "get_paths_sim", "compute_root_sim", "root_from_paths_sim"],
+        "props": ["C04"],
+    },
 }
 for _mod, _b in BRIDGE.items():
     for _pid in _b["props"]:
         PROPS[_pid].setdefault("bridge", []).append(_mod)
+
+_BRIDGE_WHAT = {
+    "Rough.Bridge.Message": "message.rs (decoder, encoder, add_field/get_field, sizes)",
+    "Rough.Bridge.Request": "request.rs (nonce_from_request and its helpers)",
+    "Rough.Bridge.Merkle": "merkle.rs (push_leaf, compute_root, get_paths, root_from_paths, reset)",
+    "Rough.Bridge.Client": "roughenough-client.rs (make_request, receive_response, ResponseHandler::new + extract_time with every validate_* step)",
+    "Rough.Bridge.Keys": "online.rs / longterm.rs / responder.rs (make_dele, make_cert, classic_midp, rfc_midp, make_srep, make_response, add_*_request, reset)",
+}
+for _pid, _cfg in PROPS.items():
+    _bs = _cfg.get("bridge", [])
+    if _bs:
+        _what = "; ".join(_BRIDGE_WHAT[b] for b in _bs)
+        _cfg["technique"] += " + Rust-to-Lean translator (rs2lean) with bridge theorems re-checked against the regenerated source on every run"
+        _cfg["level_text"] += ("; additionally the Lean code regenerated from /repo's Rust source on every run by the rs2lean translator is proved equal "
+                               "(for all inputs, up to error kinds and panic sites) to the model functions these theorems are about: " + _what)
+        _cfg["trusted_base"] = list(_cfg.get("trusted_base", [])) + [
+            "rs2lean (checklib/rs2lean: parser + emitter for the Rust subset, its prelude Rough/Gen/Prelude.lean and the extern table that maps Tag/Version tables, MsgSigner/MsgVerifier, SHA-512 and SystemTime onto model parameters) is trusted to render Rust semantics faithfully; usize + and * are assumed not to overflow"]
